@@ -67,6 +67,10 @@ def polyglot():
         files["unk/ts_text%s" % ext if ext else "unk/ts_noext"] = ts
     files["unk/sh_script"] = "#!/bin/bash\n" + py
     files["unk/node_script"] = "#!/usr/bin/env node\n" + ts
+    # a shebang of another interpreter; the word python occurs further down (a comment, a command line)
+    files["unk/ruby_port"] = "#!/usr/bin/env ruby\n# Port of the python prototype (python3 tools/run.py)\n" + py
+    files["unk/sh_wrapper"] = "#!/bin/sh\n# runs the python tool\nexec python3 -m tool \"$@\"\n" + py
+    files["unk/shebang_later"] = "# not a shebang line\n#!/usr/bin/env python3\n" + py
     return files
 
 
